@@ -32,6 +32,39 @@ def rowLine (n a : Nat) (nd : Node FDet) : String :=
   s!"r {a} " ++ joinSp ((List.range n).map fun x =>
     if x == a then "-" else stChar (nd.view x) ++ toString (nd.member x).inc)
 
+def idxList (l : List Nat) : String :=
+  if l.isEmpty then "-" else ",".intercalate (l.map toString)
+
+def repStr (a : Nat) (r : Spec.Report) : String :=
+  s!"s {a} {r.ac} {r.sc} {r.dc} {idxList r.al} {idxList r.sl} {idxList r.dl} {r.ra} {r.rs} {r.rd}"
+
+/-- the summary reports of the model node: computed from the member table, as `stats`,
+    `alive_members`, … and `repr` of the code are -/
+def repLine (n a : Nat) (nd : Node FDet) : String :=
+  repStr a (Spec.reportOf a ((List.range n).map nd.view))
+
+/-- the row of per-member states followed by the summary reports -/
+def rowLines (n a : Nat) (nd : Node FDet) : List String := [rowLine n a nd, repLine n a nd]
+
+def parseIdxList (s : String) : List Nat :=
+  if s == "-" then [] else (s.splitOn ",").map natD
+
+def parseReport (ts : List String) : Option Spec.Report :=
+  match ts with
+  | [ac, sc, dc, al, sl, dl, ra, rs, rd] =>
+    some ⟨natD ac, natD sc, natD dc, parseIdxList al, parseIdxList sl, parseIdxList dl, natD ra, natD rs, natD rd⟩
+  | _ => none
+
+/-- the `s` line that follows the `r` line of node `a` (if any) agrees with the row -/
+def reportAfterOk (a : Nat) (sts : List MState) (rest : List (List String)) : Bool :=
+  match rest with
+  | ("s" :: a' :: ts) :: _ =>
+    if natD a' != a then true else
+    match parseReport ts with
+    | none => false
+    | some r => Spec.reportOk a sts r
+  | _ => true
+
 def msgLineTag (tag : String) (m : Msg) : String :=
   let k := match m.kind with | .ping => "p" | .ack => "a"
   let f := match m.ifor with | none => "-" | some x => toString x
@@ -97,13 +130,13 @@ def actLines (c : Cfg) (s : Sys FDet) (act : Act) (k : String) : Sys FDet × Lis
           | some t => [s!"t {m.dst} {tkChar t.kind} {t.fire}"]
           | none => ["t none"]
         | [] => []
-      (s', bad ++ [rowLine c.n a (s'.node a)] ++ sentLines s s' ++ tl ++ [s!"k {(s'.node a).nextTick}"])
+      (s', bad ++ rowLines c.n a (s'.node a) ++ sentLines s s' ++ tl ++ [s!"k {(s'.node a).nextTick}"])
   | .deliver id _ =>
     match s.soup.find? (fun m => m.id == id) with
     | none => (s', ["bad deliver"])
     | some m =>
       if s.isCrashed m.dst then (s', [s!"to {m.dst} crashed"])
-      else (s', [s!"to {m.dst}", rowLine c.n m.dst (s'.node m.dst)] ++ newMsgs s s')
+      else (s', [s!"to {m.dst}"] ++ rowLines c.n m.dst (s'.node m.dst) ++ newMsgs s s')
   | .timeout a x now shuf =>
     if s.isCrashed a then (s', []) else
     match (s.node a).pendOf x with
@@ -121,7 +154,7 @@ def actLines (c : Cfg) (s : Sys FDet) (act : Act) (k : String) : Sys FDet × Lis
             | some t' => [s!"t {x} {tkChar t'.kind} {t'.fire}"]
             | none => ["t none"]
           | .susp => []
-        (s', bad ++ [rowLine c.n a (s'.node a)] ++ newMsgs s s' ++ tl)
+        (s', bad ++ rowLines c.n a (s'.node a) ++ newMsgs s s' ++ tl)
   | .crash _ _ => (s', [])
   | .cut .. => (s', [])
   | .heal .. => (s', [])
@@ -166,7 +199,7 @@ def runCluster (hdr : List String) (body : List String) : List String :=
         let (s', out) := actLines c s act k
         go s' (((acc ++ od.toArray).push echo) ++ out.toArray) ls
   let (s, acc) := go s0 #[] body
-  (acc ++ ((List.range c.n).map fun a => "F " ++ rowLine c.n a (s.node a)).toArray).toList
+  (acc ++ ((List.range c.n).flatMap fun a => (rowLines c.n a (s.node a)).map ("F " ++ ·)).toArray).toList
 
 /-! ### judge (Spec predicates on an implementation transcript) -/
 
@@ -238,6 +271,8 @@ def judgeCluster (hdr : List String) (body : List String) : List String :=
             [s!"viol membership/false-death/live-member-marked-dead node {a} t {now} delta {delta} line {i}"]
           else if ok && !Spec.detectedRow n k iv half delta fin.crashAt a now sts then
             [s!"viol membership/detect/still-alive-after-bound node {a} t {now} delta {delta} line {i}"]
+          else if !reportAfterOk a sts rest then
+            [s!"viol membership/report/stats-disagree-with-member-states node {a} t {now} line {i + 1}"]
           else
             let old' := (List.range n).map fun x =>
               if x == a then none else Spec.noteDead (lget none old x) (lget default row x)
